@@ -41,7 +41,7 @@ PROPS["C02"] = {
     "title": "Verdicts follow the documented rule language",
     "models": lambda tier: [MC_TYPE(tier)],
     "gens": lambda tier: [{"topic": "lang", "n": q(tier, 1500, 30000)}, {"topic": "str", "n": q(tier, 300, 6000)},
-                          {"topic": "quant", "n": q(tier, 200, 4000)}, {"topic": "num", "n": q(tier, 150, 3000)},
+                          {"topic": "quant", "n": q(tier, 200, 4000)}, {"topic": "num", "n": q(tier, 400, 6000)},
                           {"topic": "path", "n": q(tier, 150, 3000)}, {"topic": "typ", "n": q(tier, 400, 8000)}],
     "rules": ["oracle", "tri_oracle", "tri_both", "load_outcome", "load_panic", "match_panic"],
     "chunk": 1500,
@@ -52,7 +52,7 @@ PROPS["C05"] = {
     "title": "Condition grammar: fixed precedence, associativity and parentheses",
     "models": lambda tier: [
         {"module": "MC_Cond",
-         "constants": {"MaxLen": q(tier, 5, 6), "EmitRejLen": q(tier, 3, 4), "Wide": "FALSE", "Dev": DEV_COND},
+         "constants": {"MaxLen": q(tier, 5, 6), "EmitRejLen": q(tier, 4, 5), "Wide": "FALSE", "Dev": DEV_COND},
          "invariants": ["PrattIsRef", "RoundTrip", "Emit"],
          "forms": ["accepted", "rejected"], "workers": 8},
     ],
@@ -166,7 +166,7 @@ PROPS["C10"] = {
     "title": "Field paths resolve to exactly the addressed value",
     "models": lambda tier: [
         {"module": "MC_Path", "constants": {"Depth": q(tier, 1, 2), "PathLen": q(tier, 3, 2), "Dev": DEV_PATH},
-         "invariants": ["WalkIsFind", "IdealWalkIsFind", "Emit"], "forms": ["doc"], "workers": 8},
+         "invariants": ["WalkIsFind", "IdealWalkIsFind", "EmptySegMissing", "Emit"], "forms": ["doc"], "workers": 8},
         {"module": "MC_Nest", "constants": {"MaxArr": q(tier, 2, 3)},
          "invariants": ["DottedLaw", "ArrayLaw", "Emit"], "forms": ["nested_obj", "nested_arr"], "workers": 4},
     ],
